@@ -82,7 +82,8 @@ def r1_len_accounting(ctx):
         atoms = path_atoms(f, path, decs)
         dec = _count(effs, lambda e: e[0] == 'w' and e[1] == 'dec' and e[2] == lenf)
         other = _count(effs, lambda e: e[0] == 'w' and e[1] in ('inc', 'set') and e[2] == lenf)
-        ext = _count(effs, lambda e: _is_call(e, L + '::pop_min'))
+        # (a pop_min whose result this path found to be None extracted nothing: `if let Some(..) = list.pop_min_until(t1)` retried later)
+        ext = sum(1 for _, r in call_outcomes(f, path, decs, L + '::pop_min') if r != 'None')
         for zn in EXTRACT_Z:
             if any(_is_call(e, zn) for e in effs) and _atoms_say(atoms, zn, variant='Some'):
                 ext += 1
@@ -314,9 +315,22 @@ def r3_container_agreement(ctx):
         for (b, i, st) in w:
             t = peel(f.expr_rvalue(st['r'], b, i))
             alts = [peel(x) for x in t[1]] if t[0] == 'phi' else [t]
-            fine = all(x[0] == 'call' and x[1] == L + '::front_time' for x in alts) or f.key == Q + '::new'
+            fine = all(_node_time(x) is not None for x in alts) or f.key == Q + '::new'
             ctx.check(fine, 'bound-writer:%s' % f.key, 'the lower bound %s is only written with a stored node\'s time (or in the constructor)' % bf,
                       f.where(b), show(t))
+
+
+def _node_time(x):
+    """x is the timestamp of a stored node: `list.front_time()`, or the time component of what `list.pop_min()` returned (R7 decides
+    that pop_min hands back the node's own time).  Returns the list receiver tree, else None."""
+    x = peel(x)
+    if x[0] == 'call' and x[1] == L + '::front_time' and x[2]:
+        return x[2][0]
+    if x[0] == 'field' and x[2] == '1' and peel(x[1])[0] == 'field' and peel(x[1])[2] == '0':
+        src = peel(peel(x[1])[1])
+        if src[0] == 'as' and src[2] == 'Some' and peel(src[1])[0] == 'call' and peel(src[1])[1] == L + '::pop_min' and peel(src[1])[2]:
+            return peel(src[1])[2][0]
+    return None
 
 
 def r4_past_guard(ctx, cfg='A'):
@@ -400,6 +414,15 @@ def r5_fetch_skeleton(ctx):
             # the front_time call itself must be evaluated with the same index fields unchanged since
             ok = (src_recv == pop_recv) and not dirty
             detail = {'bound_from': show_c(src_recv), 'popped': show_c(pop_recv), 'bound_field': effs[iw][2]}
+        if not ok:
+            # equivalent: the bound is set AFTER the pop to the timestamp that very pop returned (same node by construction)
+            post = [e for e in effs[ip + 1:] if e[0] == 'w' and e[1] == 'set' and e[4] is not None and peel(e[4])[0] == 'field']
+            for e in post:
+                v = peel(e[4])
+                src = peel(peel(peel(v[1])[1])[1]) if (v[2] == '1' and peel(v[1])[0] == 'field' and peel(peel(v[1])[1])[0] == 'as') else None
+                if src is not None and src[0] == 'call' and src[1] == L + '::pop_min' and len(src) > 3 and src[3] == effs[ip][1].b:
+                    ok = True
+                    detail = {'bound_from': 'time returned by the pop', 'bound_field': e[2]}
         ctx.check(ok, 'bound-is-popped-time',
                   'on the bucket path the lower bound is set to the front time of the very bucket that is popped, before the pop',
                   f.where_path(path), detail)
